@@ -37,9 +37,8 @@ CONSTANTS
   MathMaxIn = 0
   MathScales = {0}
 VIEW View
-INVARIANTS
-  Inv_C09_Identity
 PROPERTIES
+  Act_C09_IdentityGh
   Act_C09_Identity
   Act_C09_Authority
   Act_C09_Cap_ModF5
